@@ -204,6 +204,41 @@ fn mode_words(ctx: &Arc<Ctx>) {
             }
         }
     }
+    // names that contain one another ("a" is a substring of "ab"): every word up to length 5 (6 thorough) over an
+    // 11-symbol alphabet, for both orders of the model's parameter list
+    let alpha_sub: Vec<Sym> = {
+        let mut v = vec![Sym::X, Sym::Init(2), Sym::Inv];
+        for (names, ar) in [(vec!["a"], 1usize), (vec!["ab"], 1), (vec!["a", "ab"], 2), (vec!["ab", "a"], 2)] {
+            v.push(Sym::Func { names, arity: ar });
+        }
+        for n in ["a", "ab"] {
+            for ar in [1usize, 2] {
+                v.push(Sym::Pd { name: n, arity: ar });
+            }
+        }
+        v
+    };
+    let lsub = if ctx.args.thorough() { 6 } else { 5 };
+    for model in [vec!["a", "ab"], vec!["ab", "a"]] {
+        for len in 0..=lsub {
+            let total = (alpha_sub.len() as u64).pow(len as u32);
+            let mut start = 0u64;
+            while start < total {
+                let end = (start + 4096).min(total);
+                let block = global;
+                global += 1;
+                if ctx.args.mine(block) {
+                    ctx.begin(block);
+                    for idx in start..end {
+                        let w = nth_word(&model, &alpha_sub, len, idx);
+                        check_word(ctx, &w, &mut t, "words");
+                    }
+                    ctx.tick();
+                }
+                start = end;
+            }
+        }
+    }
     flush(ctx, &t, lmax as u64, "words");
 }
 
@@ -372,7 +407,8 @@ fn main() {
             let mut t = Tally { words: 0, calls: 0, accepted: 0, valid_ref: 0, kinds: Default::default() };
             check_word(&ctx, &w, &mut t, v["mode"].as_str().unwrap_or("words"));
             let d: BTreeSet<String> = reference_defects(&w);
-            ctx.with(|s| s.notes.push(format!("reference defects: {:?}; impl: {:?}", d, run_impl(&w).map(|_| "Ok").map_err(|e| canon_err(&e)))));
+            let imp = guarded(|| run_impl(&w).map(|_| "Ok").map_err(|e| canon_err(&e)));
+            ctx.with(|s| s.notes.push(format!("reference defects: {:?}; impl: {:?}", d, imp)));
             return;
         }
         let mode = ctx.args.extra.get("mode").cloned().unwrap_or("words".into());
@@ -670,6 +706,19 @@ mod routing {
                     }
                 }
             }
+        }
+        // many parameters (past 64 and 128): one single-parameter function per parameter, plus functions of arity 3 and 10
+        // that straddle the boundaries, in declaration orders different from the model order
+        for np in [70usize, 130] {
+            let names: Vec<String> = (0..np).map(|k| format!("r{}", k)).collect();
+            let mut funcs: Vec<Option<Func>> = vec![None];
+            funcs.push(Some(Func { params: vec![65, 63, 64], deriv_order: vec![2, 0, 1] }));
+            funcs.push(Some(Func { params: (0..10).map(|t| (60 + 7 * t) % np).collect(), deriv_order: (0..10).rev().collect() }));
+            if np > 128 {
+                funcs.push(Some(Func { params: vec![129, 127, 128, 0], deriv_order: vec![0, 1, 2, 3] }));
+            }
+            let funcs = complete(&names, funcs);
+            visit(ModelDesc { names, funcs });
         }
         // arity 5..10 on a 10-parameter model: rotations and transpositions of the identity assignment
         let names10: Vec<String> = (0..10).map(|k| format!("q{}", k)).collect();
